@@ -7,7 +7,8 @@ def handlers : List (List String → Option String) := [
   handleTok,
   handleParse,
   handleVisit,
-  handleEnc
+  handleEnc,
+  CtxDb.handleDb
 ]
 
 def handle (fields : List String) : String :=
